@@ -2,5 +2,5 @@ package main
 
 import "strconv"
 
-func strconvItoa(i int) string    { return strconv.Itoa(i) }
+func strconvItoa(i int) string     { return strconv.Itoa(i) }
 func strconvQuote(s string) string { return strconv.Quote(s) }
